@@ -60,6 +60,7 @@ type Obligation struct {
 	Status  string // discharged | failed | undecided
 	Cover   bool   // vacuity cover query: must be SAT
 	Candidate string
+	Rets    []*Val // post obligations: the values returned on this path
 }
 
 // KeyInfo describes one state key.
